@@ -235,6 +235,29 @@ func genC08Equal(r *hlib.Rng) In {
 	return in
 }
 
+// the deposit that is reorganised away repeats content that lies under surviving roots (the same bridge four times in a row, or the
+// pair (a, b) twice): its branch shares nodes with theirs; after the reorg every surviving root must still serve verifying proofs
+// for every index it covers, and so must the roots of the new fork
+func genC08RepeatedReorg(r *hlib.Rng, pair bool) In {
+	in := In{Prop: "c08", Proofs: "all"}
+	a, b := genBridge0(r, 0, 0, 0), genBridge0(r, 0, 0, 0)
+	if !pair {
+		b = a
+	}
+	mk := func(num uint64, dc uint32, evs ...Ev) Op {
+		op := Op{K: "block", Num: num}
+		for i, e := range evs {
+			e.Pos, e.Tag, e.DC = uint64(2*i+1), uint64(num*10)+uint64(i), dc+uint32(i)
+			op.Events = append(op.Events, e)
+		}
+		return op
+	}
+	in.Ops = append(in.Ops, mk(2, 0, a, b), mk(3, 2, a), mk(5, 3, b), snapOp())
+	in.Ops = append(in.Ops, Op{K: "reorg", B: 5}, snapOp())
+	in.Ops = append(in.Ops, mk(5, 3, genBridge0(r, 0, 0, 0)), mk(7, 4, a, b), snapOp())
+	return in
+}
+
 func genC08(r *hlib.Rng, n int) In {
 	h := &hist{r: r, kinds: []string{"claim"}, pBridg: 90}
 	in := In{Prop: "c08", Proofs: "all"}
@@ -521,7 +544,15 @@ func genC07(r *hlib.Rng, n int) In {
 				}
 			}
 		}
-		nb := func() int { n := 0; for _, e := range op.Events { if e.T == "bridge" { n++ } }; return n }()
+		nb := func() int {
+			n := 0
+			for _, e := range op.Events {
+				if e.T == "bridge" {
+					n++
+				}
+			}
+			return n
+		}()
 		if nb > 0 && r.Intn(4) == 0 {
 			// the node table cannot be read (nor written) during one attempt: right after a failed attempt (whose rollback
 			// invalidated the frontier cache) or a restart, the append-only tree has to rebuild its cache from exactly that table
@@ -599,6 +630,7 @@ func generate(prop string, f *hlib.Flags) []In {
 		case "c08":
 			if i == 0 {
 				ins = append(ins, genC08Equal(hlib.NewRng(f.Seed^0xe9a1)))
+				ins = append(ins, genC08RepeatedReorg(hlib.NewRng(f.Seed^0xe9a2), false), genC08RepeatedReorg(hlib.NewRng(f.Seed^0xe9a3), true))
 			}
 			ins = append(ins, genC08(r, 4+r.Intn(8)))
 		case "c04":
